@@ -81,6 +81,8 @@ type Exec struct {
 	entry      *State
 	rf         string // skolem region for frame conditions
 	rootExits  []exitRec
+	maskTerms  map[string]bool // heap terms that are already masks
+	maskKeys   map[string]bool // heap keys for which a masked recursive function is in use
 	enclosing  map[string]Val // unconstrained stand-ins for enclosing-function variables named in a closure contract
 	modRegs    []modReg // regions named by the root's modifies clause, with their heap
 	inputs     []InputVar
